@@ -310,6 +310,99 @@ func (c16) Gen(seed uint64, idx int, tier string) *Scenario {
 	return sc
 }
 
+// noisyInputs end in a runtime error after a warning, in a parse error after a diagnostic, or
+// succeed after a warning: whatever a call still holds when it ends that way belongs to it.
+var noisyInputs = []string{
+	"def t \"a\" { x = 1 }\nbind t -> struct\nbind t -> struct\nprint 1/0\n",
+	"def t \"a\" { x = 1 }\nbind t -> struct\nbind t -> struct\nprint \"w\"\n",
+	"print \"before\"\nprint )\nprint (\n",
+	"print \"p\"\nprint -\"s\"\n",
+	"print 1 @\n",
+}
+
+// sharedEval is one Interpret (or Parse+Dump+Execute) through the caller's long-lived options;
+// it returns what this call added to the shared writers, its error and its dump.
+func sharedEval(opts []bcl.Option, ob, lb *bytes.Buffer, src []byte, name string, viaParse bool, failDump int) []string {
+	o0, l0 := ob.Len(), lb.Len()
+	var errT, pan, dump string
+	func() {
+		defer func() {
+			if x := recover(); x != nil {
+				pan = panicSig(x)
+			}
+		}()
+		if !viaParse {
+			_, _, err := bcl.Interpret(src, opts...)
+			errT = errText(err)
+			return
+		}
+		p, err := bcl.Parse(src, name, opts...)
+		if err != nil {
+			errT = "parse: " + errText(err)
+			return
+		}
+		if failDump >= 0 {
+			p.Dump(&simio.SimDisk{FailAt: failDump}) // the disk fills up: this dump is lost, nothing else is
+		}
+		var db bytes.Buffer
+		if err := p.Dump(&db); err != nil {
+			errT = "dump: " + errText(err)
+			return
+		}
+		dump = db.String()
+		_, _, err = bcl.Execute(p)
+		errT = errText(err)
+	}()
+	return []string{"output=" + ob.String()[o0:], "log=" + lb.String()[l0:], "error=" + errT, "panic=" + pan, "dump=" + dump}
+}
+
+func c16SharedOptions(sc *Scenario, o *Outcome, hr *prng.R) {
+	if len(sc.Src) > 20000 {
+		return
+	}
+	for _, viaParse := range []bool{hr.Chance(1, 2)} {
+		// alone, with options of its own
+		var ob0, lb0 bytes.Buffer
+		alone := sharedEval([]bcl.Option{bcl.OptOutput(&ob0), bcl.OptLogger(&lb0)}, &ob0, &lb0, sc.Src, sc.Name, viaParse, -1)
+		var ob, lb bytes.Buffer
+		shared := []bcl.Option{bcl.OptOutput(&ob), bcl.OptLogger(&lb)}
+		for round := 0; round < 2; round++ {
+			// earlier calls through the same options, each compared with itself alone as well
+			for k := hr.Range(1, 3); k > 0; k-- {
+				ns := []byte(noisyInputs[hr.Intn(len(noisyInputs))])
+				var ob1, lb1 bytes.Buffer
+				nAlone := sharedEval([]bcl.Option{bcl.OptOutput(&ob1), bcl.OptLogger(&lb1)}, &ob1, &lb1, ns, "noisy.bcl", viaParse, -1)
+				nShared := sharedEval(shared, &ob, &lb, ns, "noisy.bcl", viaParse, hr.Intn(40)-1)
+				o.Evals++
+				if d := diffParts(nAlone, nShared); !sameParts(nAlone, nShared) {
+					c := sc.Clone()
+					o.viol("C16", "history", "a call through options that served earlier calls differs from the same call alone:"+strings.SplitN(d, ":", 2)[0],
+						fmt.Sprintf("input %q, round %d: %s", ns, round, d), c)
+					return
+				}
+			}
+			if hr.Chance(1, 2) {
+				// a load of a cut file in between
+				if len(alone) == 5 && len(alone[4]) > 6+5 {
+					cut := []byte(alone[4][5 : 5+hr.Intn(len(alone[4])-5)])
+					func() {
+						defer func() { recover() }()
+						bcl.LoadProg(bytes.NewReader(cut), "cut", shared...)
+					}()
+				}
+			}
+			got := sharedEval(shared, &ob, &lb, sc.Src, sc.Name, viaParse, hr.Intn(60)-1)
+			o.Evals++
+			if d := diffParts(alone, got); !sameParts(alone, got) {
+				o.viol("C16", "history", "a call through options that served earlier calls differs from the same call alone:"+strings.SplitN(d, ":", 2)[0],
+					fmt.Sprintf("round %d (viaParse=%v): %s", round, viaParse, d), sc)
+				return
+			}
+		}
+	}
+	o.probe("shared_options", 1)
+}
+
 // evalOnce is one complete in-memory evaluation: Parse, Dump, Execute, Bind.
 func evalOnce(src []byte, name, target string) (dg string, parts []string) {
 	mem := ParseMem(src, name, 0)
@@ -340,6 +433,8 @@ func evalOnce(src []byte, name, target string) (dg string, parts []string) {
 	}
 	return digest(parts...), parts
 }
+
+func sameParts(a, b []string) bool { return strings.Join(a, "\x00") == strings.Join(b, "\x00") }
 
 func diffParts(a, b []string) string {
 	for i := 0; i < len(a) && i < len(b); i++ {
@@ -384,6 +479,12 @@ func (c16) Run(t *testing.T, sc *Scenario) *Outcome {
 			break
 		}
 	}
+	// (d') history through things that outlive a call: one set of Option values (and the writers in
+	// them) serving many calls, as a server does that builds its options once; and calls that fail
+	// half-way - a Dump onto a disk that fills up, a Load of a cut file, an execution that warns and
+	// then fails - before the call whose outcome is compared. What an earlier call left behind must
+	// not show in a later one: each call's share of the common writers equals what it writes alone.
+	c16SharedOptions(sc, o, hr)
 	// (f) Execute twice on one Prog, Dump before, between and after
 	mem := ParseMem(sc.Src, sc.Name, 0)
 	if mem.Panic == "" && mem.Err == nil {
